@@ -5,7 +5,7 @@ from sexpr import enc, hexs
 from odata_query import ast
 from odata_query.grammar import ODataLexer, ODataParser
 
-PROP_MODS = ["ODataVerif.Tie.ParserTables", "ODataVerif.Props.C06"]
+PROP_MODS = ["ODataVerif.Tie.ParserTables", "ODataVerif.Props.C06", "ODataVerif.Props.C06Image"]
 
 def canon_pyval(node):
     try:
@@ -68,7 +68,15 @@ def spellings(ctx):
         except ValueError:
             mean = None   # not a calendar date: not a well-formed literal, the property says nothing
         out.append((s, "Date", s, mean))
-    for s in ["2020-00-10", "2020-13-01", "2020-01-32", "0999-01-01", "2020-1-01", "20200101"]:
+    # ABNF: year = [ "-" ] ( "0" 3DIGIT / oneToNine 3*DIGIT ): years below 1000 are written with leading zeros
+    for y, m, d in [(1, 1, 1), (1, 12, 31), (99, 2, 28), (999, 12, 31), (400, 2, 29), (100, 10, 10)]:
+        s = f"{y:04d}-{m:02d}-{d:02d}"
+        out.append((s, "Date", s, f"ok date {y} {m} {d}"))
+        out.append((s + "T00:00:00Z", "DateTime", s + "T00:00:00Z", f"ok datetime {y} {m} {d} 0 0 0 0 0"))
+    # … and year 0000, negative years and years of more than four digits are well-formed too, but have no Python value (KNOWN FINDING C06-year-range)
+    for s, mean in [("0000-01-01", "ok date 0 1 1"), ("-0001-01-01", "ok date -1 1 1"), ("10000-01-01", "ok date 10000 1 1")]:
+        out.append((s, "Date", s, mean))
+    for s in ["2020-00-10", "2020-13-01", "2020-01-32", "999-01-01", "2020-1-01", "20200101"]:
         out.append((s, None, None, None))
     # time of day hh:mm:ss[.f]
     for h, mi, se in itertools.product([0, 9, 10, 19, 20, 23], [0, 59], [0, 30, 59]):
@@ -186,6 +194,11 @@ def run(ctx):
                 return f".py_val = {got}, meaning is {mean}"
         return None
 
+    def year_out_of_range(s, kind):
+        import re
+        m = re.match(r"(-?\d+)-\d\d-\d\d", s) if kind in ("Date", "DateTime") else None
+        return bool(m) and not (1 <= int(m.group(1)) <= 9999 and len(m.group(1)) == 4)
+
     def judge_ident(i):
         import re
         if not re.fullmatch(r"[_a-zA-Z]\w*(\.[_a-zA-Z0-9]\w*)*", i, re.A) or len(i) > 128 or i.lower() in ("true", "false", "null", "any", "all", "not"):
@@ -197,6 +210,18 @@ def run(ctx):
         *ns, name = i.split(".")
         want = ast.Compare(ast.Eq(), ast.Identifier(name, tuple(ns)), ast.Integer("1"))
         return None if nd == want else f"parsed as {nd!r}"
+
+    # the property itself on the real code, on every run
+    bad_sp = [(s, kind, w) for s, kind, val, mean in sp for w in [judge_spelling(s, kind, val, mean)] if w]
+    bad_id = [(i, w) for i in IDENTS for w in [judge_ident(i)] if w]
+    ctx.evaluations += len(sp) + len(IDENTS)
+    kf_year = [b for b in bad_sp if year_out_of_range(b[0], b[1])]
+    ctx.extra["judged"] = {"spellings": len(sp), "identifiers": len(IDENTS), "violations": len(bad_sp) + len(bad_id) - len(kf_year), "under_known_finding_year_range": len(kf_year)}
+    ctx.note(f"judge C06 on the real code: {len(sp)} spellings, {len(IDENTS)} identifiers; {len(bad_sp) - len(kf_year)} + {len(bad_id)} violations, {len(kf_year)} under the year-range known finding")
+    fresh = [b for b in bad_sp if b not in kf_year] + bad_id
+    if fresh:
+        first = fresh[0]
+        ctx.broken.append(f"real code violates C06 on {len(fresh)} spellings; first: {first[0]!r}: {first[-1]}"[:600])
 
     def search(ctx):
         found = []
@@ -215,8 +240,9 @@ def run(ctx):
                         except Exception as e:  # noqa
                             why = f"embedded well-formed {kind} literal rejected: {type(e).__name__}"
                 if why:
+                    sig = "C06:grammar.py:_DATE:year-outside-0001-9999" if year_out_of_range(s, kind) else "C06:" + str(kind) + ":" + why.split(",")[0][:40]
                     found.append({"property": "C06", "input": txt, "literal": s, "kind": kind, "why": why,
-                                  "signature": "C06:" + str(kind) + ":" + why.split(",")[0][:40], "replay": f"ODataParser().parse(ODataLexer().tokenize({txt!r}))"})
+                                  "signature": sig, "replay": f"ODataParser().parse(ODataLexer().tokenize({txt!r}))"})
         for i in IDENTS:
             why = judge_ident(i)
             if why:
@@ -233,4 +259,4 @@ def run(ctx):
                      "dateutil.isoparse / datetime.fromisoformat are modelled on the shapes the lexer admits (environment: tied by this correspondence, not verified)",
                      "the meaning of each spelling is known to the generator by construction (specification side of py_val lives in the harness)"],
         trusted_extra=["Model/PyVal.lean validated against CPython 3.12 datetime / dateutil"],
-        search_fn=search, known_replay_fn=None)
+        search_fn=search, known_replay_fn=lambda f: bool(kf_year))
